@@ -3,6 +3,7 @@ package kessoku
 import (
 	"bytes"
 	"fmt"
+	"go/token"
 	"log/slog"
 	"os"
 	"path/filepath"
@@ -13,13 +14,16 @@ import (
 type Processor struct {
 	parser  *Parser
 	varPool *VarPool
+	// injectorNames holds "package path.name" of the injectors of this run
+	injectorNames map[string]struct{}
 }
 
 // NewProcessor creates a new processor instance.
 func NewProcessor() *Processor {
 	return &Processor{
-		parser:  NewParser(),
-		varPool: NewVarPool(),
+		parser:        NewParser(),
+		varPool:       NewVarPool(),
+		injectorNames: make(map[string]struct{}),
 	}
 }
 
@@ -47,6 +51,33 @@ func (p *Processor) processFile(filename string) error {
 	}
 
 	slog.Info("Found inject directives", "file", filename, "count", len(builds))
+
+	// Every injector becomes a package-level function: its name must be an
+	// identifier that is still free in the package
+	for _, build := range builds {
+		name := build.InjectorName
+		if !token.IsIdentifier(name) {
+			return fmt.Errorf("injector name %q in %s is not a valid Go identifier", name, filename)
+		}
+
+		// init (and main in package main) cannot take arguments or return values
+		if name == "init" || (name == "main" && metaData.Package.Name == "main") {
+			return fmt.Errorf("injector name %s in %s is reserved by Go", name, filename)
+		}
+
+		if _, declared := metaData.Declared[name]; declared && name != "_" {
+			return fmt.Errorf("injector name %s in %s is already declared in package %s", name, filename, metaData.Package.Path)
+		}
+
+		key := metaData.Package.Path + "." + name
+		if _, exists := p.injectorNames[key]; exists && name != "_" {
+			return fmt.Errorf("injector name %s in %s is used by more than one kessoku.Inject declaration", name, filename)
+		}
+		if p.injectorNames == nil {
+			p.injectorNames = make(map[string]struct{})
+		}
+		p.injectorNames[key] = struct{}{}
+	}
 
 	outputFileName := outputFileName(filename)
 	slog.Debug("outputFileName", "outputFileName", outputFileName)
